@@ -278,7 +278,8 @@ def run_suite_with_model(ctx, facts, suite, args, timeout=3000):
     rows = []
     if rep is None:
         ctx.violation("harness-crash", {"what": "%s suite crashed: the process running the library died (a handler result, callback or input must never do that)" % suite,
-                                        "stdout": tail(out, 10), "stderr": tail(err, 40)}, found_input=False)
+                                        "replay": "harness/harness %s -seed %d %s  (same seed reproduces; the goroutine trace below names the path)" % (suite, ctx.seed, " ".join(args)),
+                                        "stdout": tail(out, 10), "stderr": tail(err, 60)}, found_input=True)
     elif facts.get("ocaml_ok"):
         run_model(os.path.join(d, "cases.txt"), os.path.join(d, "model.txt"))
         rd = lambda f: open(os.path.join(d, f), errors="replace").read().split("\n")
@@ -473,14 +474,14 @@ def check_C11(ctx):
     if not facts.get("harness_ok"):
         ctx.violation("harness-build", {"what": "harness does not build against the current tree", "log": tail(facts.get("harness_log", ""))}, found_input=False)
         return ctx.finish()
-    rep, rows = run_suite_with_model(ctx, facts, "shutdown", ["-len", "5" if ctx.tier == "quick" else "7"])
+    rep, rows = run_suite_with_model(ctx, facts, "shutdown", ["-len", "6" if ctx.tier == "quick" else "8"])
     bad = 0
     for g, cmd, impl, model in rows:
         if not shutdown_compare(impl, model):
             bad += 1
             if bad <= 4:
                 ctx.violation("schedule", {"what": "outcome of this forced schedule on the real server is not one the interleaving model allows",
-                                           "schedule": cmd, "tokens": "c connect, r release accepted connection, 0/1 session ends, S Shutdown up to the listener close, k let the close through, x context ends",
+                                           "schedule": cmd, "tokens": "c connect, r release accepted connection, 0/1 peer of session goes away, a/b that session's conn.Close is let through, S Shutdown up to the listener close, k let the close through, x context ends",
                                            "implementation": impl, "model": model})
     if rep:
         ctx.cov["evaluations"] = len(rows)
